@@ -24,6 +24,23 @@ from sa import core   # noqa: E402
 PROPS = ['C%02d' % i for i in range(1, 21)]
 
 
+def engine_selfcheck(src, rep, pid):
+    """thorough tier: consistency of the regular-language engine with CPython's `re` on the repository's
+    own regex literals (acceptance in three call modes, and membership of the parse chosen by backtracking
+    in the priority-pruned marked language).  This tests the analyser, not the repository: a disagreement
+    is an ANALYSIS-ERROR, never a violation."""
+    from sa import rx_selfcheck
+    t, b, p = rx_selfcheck.selfcheck(src, per_regex=400)
+    t2, b2, sk, p2 = rx_selfcheck.selfcheck_captures(src, per_regex=150)
+    rep.extra['engine_selfcheck'] = {'acceptance_comparisons': t, 'capture_comparisons': t2, 'disagreements': b + b2,
+                                     'group_mode_combinations_not_analysable': sk}
+    for x in (p + p2):
+        if ' unsupported: ' in x:
+            rep.note('engine self-check skipped ' + x)
+            continue
+        rep.error(pid + '.engine', 'regular-language engine disagrees with re: ' + x)
+
+
 def run_property(pid, tier):
     rep = core.Report(pid, tier)
     try:
@@ -34,6 +51,8 @@ def run_property(pid, tier):
     try:
         src = core.Source()
         mod.check(src, rep, tier)
+        if tier == 'thorough':
+            engine_selfcheck(src, rep, pid)
     except core.AnalysisError as e:
         rep.error(pid, str(e))
     except Exception as e:   # pylint: disable=broad-except
